@@ -135,14 +135,21 @@ theorem C14_replace_range (ovf : Bool) (s : Bytes) (sb eb : Bd) (t : Bytes) (hs 
   refine ⟨replaceRange_eq ovf s sb eb t hs he, fun h1 h2 => ?_⟩
   rw [replaceRange_split ovf l₁ l₂ l₃ sb eb (encode r) hs he h1 h2, ← encode_append, ← encode_append]
 
-/-- **F7** (known finding): at `usize::MAX` the source's plain `n + 1` wraps when overflow checks
-are off, so `..=usize::MAX` does not panic (std panics); with overflow checks it panics. -/
-theorem C14_range_end_overflow (s t : Bytes) (take back : Nat) (hv : Valid s) :
-    replaceRange false s .unbounded (.incl (USIZE - 1)) t = .ok (t ++ s)
-    ∧ replaceRange true s .unbounded (.incl (USIZE - 1)) t = .panic
-    ∧ drain false s .unbounded (.incl (USIZE - 1)) take back false = .ok ⟨s, [], []⟩
-    ∧ drain true s .unbounded (.incl (USIZE - 1)) take back false = .panic :=
-  ⟨replaceRange_wraps s t, replaceRange_checked s t, drain_wraps s take back hv, drain_checked s take back false⟩
+/-- **F7** (known finding): at `usize::MAX` a plain `n + 1` wraps when it is not overflow-checked,
+so `..=usize::MAX` does not panic (std panics); it panics as soon as it is checked — by the
+profile's overflow checks or by `checked_add` in the source; which of the two the source has is
+regenerated by the translator (`Gen.STR_*_END_CHECKED`). -/
+theorem C14_range_end_overflow (s t : Bytes) (take back : Nat) (hv : Valid s) (o₂ : Bool) :
+    replaceRangeWith false false s .unbounded (.incl (USIZE - 1)) t = .ok (t ++ s)
+    ∧ replaceRangeWith true o₂ s .unbounded (.incl (USIZE - 1)) t = .panic
+    ∧ drainWith false s .unbounded (.incl (USIZE - 1)) take back false = .ok ⟨s, [], []⟩
+    ∧ drainWith true s .unbounded (.incl (USIZE - 1)) take back false = .panic
+    ∧ (∀ ovf sb eb f, drain ovf s sb eb take back f
+        = drainWith (ovf || Gen.STR_DRAIN_END_CHECKED == 1) s sb eb take back f)
+    ∧ (∀ ovf sb eb, replaceRange ovf s sb eb t
+        = replaceRangeWith (ovf || Gen.STR_REPLACE_RANGE_END_CHECKED == 1) (ovf || Gen.VEC_DRAIN_END_CHECKED == 1) s sb eb t) :=
+  ⟨replaceRange_wraps s t, replaceRange_checked o₂ s t, drain_wraps s take back hv, drain_checked s take back false,
+   fun _ _ _ _ => rfl, fun _ _ _ => rfl⟩
 
 /-! ## decoders -/
 
